@@ -129,3 +129,33 @@ def write_fmt_pieces(e):
         if s.k == "const" and isinstance(s.a[0], bytes):
             return [("lit", s.a[0])]
     return None
+
+
+def pieces_of_string_buffer(an, local):
+    """A String built as `String::new()/with_capacity(..)` followed only by
+    push_str / push calls: -> pieces, or None"""
+    import shapes
+    d = shapes.def_expr(an, local)
+    if d is None:
+        return None
+    from kernel import unmut
+    d = unmut(d)
+    if not (d.k == "call" and d.a[0].name in ("new", "with_capacity") and "String" in d.a[0].fn):
+        return None
+    out = []
+    for mu in shapes.mutations(an, local):
+        if mu["kind"] != "mutcall":
+            return None
+        t = mu["term"]
+        c = t.callee
+        if c is None or c.name not in ("push_str", "push") or "String" not in c.fn or len(t.args) != 2:
+            return None
+        a = strip(an.operand_expr(t.args[1], mu["bb"], mu["idx"]))
+        if a.k == "const" and isinstance(a.a[0], bytes):
+            if out and out[-1][0] == "lit":
+                out[-1] = ("lit", out[-1][1] + a.a[0])
+            else:
+                out.append(("lit", a.a[0]))
+        else:
+            out.append(("arg", "display", a, "String", {}))
+    return out
